@@ -1,6 +1,6 @@
 (** C12 - PCM transcoding maps every source channel to the same-numbered output channel.
     Property theorems only. *)
-From SE Require Import Base Transcode FatProofs TranscodeProofs.
+From SE Require Import Base Transcode FatProofs TranscodeProofs TranscodeUnbounded.
 
 (** Draining the transcoder terminates for ANY streams, block size and lengths. *)
 Theorem transcode_total : forall target ss dw dc, transcode target ss dw dc <> OutOfFuel.
@@ -16,13 +16,113 @@ Theorem transcode_channel_mismatch :
     transcode target (s :: ss) dw dc = Err IncompatibleNumberOfChannels.
 Proof. exact transcode_channel_mismatch_lemma. Qed.
 
+(** * The property, UNBOUNDED: any number of streams, any common sample width [w >= 1], any
+    channel counts [>= 1], any byte orders, any lengths (partial trailing frames included),
+    any block size [target] (no condition on [target] at all: the code clamps the block to
+    at least one frame).
+
+    Vocabulary (TranscodeProofs.v / TranscodeUnbounded.v):
+    - [uniform w ss]      every source has [swidth = w] and [schans >= 1];
+    - [sum_chans ss]      the destination channel count, sum of the sources' channels;
+    - [whole_frames s]    [len (sbytes s) / frame_size s];
+    - [min_frames ss], [max_frames ss]   shortest / longest source, in whole frames;
+    - [src_sample s f c]  the little-endian bytes of sample (frame f, channel c) of source s;
+    - [expected_frame ss f]  all sources' frames f side by side, channels in source order;
+    - [full_frame ss f]   same, but a source with no frame f contributes zero padding;
+    - [block_frames target ss]  frames per block (get_buffer_sizes);
+    - [out_count target ss] = min (ceil(min_frames / block_frames) * block_frames, max_frames). *)
+
+(** EXACT output, all inputs: [out_count] frames, frame f = [full_frame ss f]. *)
+Theorem transcode_exact :
+  forall target ss w, ss <> [] -> 1 <= w -> uniform w ss ->
+    transcode target ss w (sum_chans ss)
+    = Ok (concat (map (full_frame ss) (map Z.of_nat (seq 0 (Z.to_nat (out_count target ss)))))).
+Proof. exact transcode_exact_lemma. Qed.
+Print Assumptions transcode_exact.
+
+(** (3) Frame map and bounds for UNEQUAL lengths: the output consists of exactly
+    [out_count target ss] whole frames of [sum_chans ss] samples; that count lies between the
+    shortest and the longest source; every output frame f is [full_frame ss f]; and for every
+    f below the shortest source it is exactly the sources' frames f, channel by channel in
+    source order ([expected_frame]). *)
+Theorem transcode_frame_map :
+  forall target ss w, ss <> [] -> 1 <= w -> uniform w ss ->
+  exists out,
+    transcode target ss w (sum_chans ss) = Ok out
+    /\ zlen out = out_count target ss * (sum_chans ss * w)
+    /\ min_frames ss <= out_count target ss <= max_frames ss
+    /\ (forall f, 0 <= f < out_count target ss ->
+          slice out (f * (sum_chans ss * w)) ((f + 1) * (sum_chans ss * w)) = full_frame ss f)
+    /\ (forall f, 0 <= f < min_frames ss ->
+          slice out (f * (sum_chans ss * w)) ((f + 1) * (sum_chans ss * w)) = expected_frame ss f).
+Proof. exact transcode_frame_map_lemma. Qed.
+Print Assumptions transcode_frame_map.
+
+(** (1) Equal frame counts: if every source has exactly [F] whole frames (a trailing
+    partial frame is allowed and dropped) the output is the frame-by-frame interleaving
+    [interleaved ss F = concat_{f<F} concat_{s in ss} concat_{c<schans s} src_sample s f c],
+    whatever [target]. *)
+Theorem transcode_equal_frames :
+  forall target ss w F, ss <> [] -> 1 <= w -> uniform w ss ->
+    (forall s, In s ss -> whole_frames s = F) ->
+    transcode target ss w (sum_chans ss) = Ok (interleaved ss F).
+Proof. exact transcode_equal_frames_lemma. Qed.
+Print Assumptions transcode_equal_frames.
+(** ... in particular when every length is exactly [F] frames. *)
+Theorem transcode_equal_lengths :
+  forall target ss w F, ss <> [] -> 1 <= w -> uniform w ss ->
+    (forall s, In s ss -> zlen (sbytes s) = F * frame_size s) ->
+    transcode target ss w (sum_chans ss) = Ok (interleaved ss F).
+Proof. exact transcode_equal_lengths_lemma. Qed.
+Print Assumptions transcode_equal_lengths.
+Theorem transcode_equal_frames_length :
+  forall w ss F, 1 <= w -> uniform w ss -> 0 <= F ->
+    (forall s, In s ss -> whole_frames s = F) ->
+    zlen (interleaved ss F) = F * (sum_chans ss * w).
+Proof. exact interleaved_length. Qed.
+Print Assumptions transcode_equal_frames_length.
+Theorem transcode_block_size_independent :
+  forall t1 t2 ss w F, ss <> [] -> 1 <= w -> uniform w ss ->
+    (forall s, In s ss -> whole_frames s = F) ->
+    transcode t1 ss w (sum_chans ss) = transcode t2 ss w (sum_chans ss).
+Proof. exact transcode_block_size_independent_lemma. Qed.
+Print Assumptions transcode_block_size_independent.
+
+(** (2) The stereo pair of C05: two mono 16-bit little-endian streams of equal even
+    length give the 2-byte samples of L and R alternately, L first in every frame. *)
+Theorem transcode_stereo_pair :
+  forall target L R F, zlen L = 2 * F -> zlen R = 2 * F ->
+    transcode target [mono16 L; mono16 R] 2 2 = Ok (interleave2 L R).
+Proof. exact transcode_stereo_pair_lemma. Qed.
+Print Assumptions transcode_stereo_pair.
+
+(** (4) Passthrough: a single little-endian stream (its encoding equals the destination,
+    [enc_eq_dest] holds, PassthroughTranscoder runs) is copied, truncated to whole frames,
+    for any block size. *)
+Theorem transcode_passthrough :
+  forall target w s, 1 <= w -> swidth s = w -> 1 <= schans s -> sbig s = false ->
+    transcode target [s] w (schans s) = Ok (firstn (Z.to_nat (whole_frames s * frame_size s)) (sbytes s)).
+Proof. exact transcode_single_le_lemma. Qed.
+Print Assumptions transcode_passthrough.
+Theorem transcode_passthrough_selected :
+  forall w s, swidth s = w -> 1 <= schans s -> sbig s = false -> enc_eq_dest s w (schans s) = true.
+Proof. exact single_le_is_passthrough. Qed.
+
+(** The boolean predicate of the bounded theorem below holds for ALL uniform inputs. *)
+Theorem transcode_property_all :
+  forall target ss,
+    match ss with [] => True | s0 :: _ => 1 <= swidth s0 /\ uniform (swidth s0) ss end ->
+    prop_ok target ss = true.
+Proof. exact prop_ok_all_lemma. Qed.
+Print Assumptions transcode_property_all.
+
 (** The property itself ([prop_ok]: whole output frames of sum(channels) samples; frame
     count between the shortest and the longest source and exact when they are equal; output
     frame f / channel c = little-endian bytes of source channel c frame f for every f below
     the shortest source).  BOUNDED theorem - the bound is the grid in the statement: 1-2
     streams x 1-2 channels x width 1-2 x both byte orders x 0-3 frames x trailing partial
-    frame x block size {1,3,4,8}; 8448 configurations enumerated inside Coq.  The unbounded
-    statement is not proved yet (named _partial for that reason). *)
+    frame x block size {1,3,4,8}; 8448 configurations enumerated inside Coq.  Kept for reference:
+    it is now subsumed by [transcode_property_all] above (the name is historical). *)
 Theorem transcode_property_on_grid_partial : grid_ok = true.
 Proof. exact transcode_grid_all. Qed.
 Print Assumptions transcode_property_on_grid_partial.
@@ -34,3 +134,49 @@ Example c12_example_mixed :
                 {| sbytes := [21;22; 23;24]; swidth := 2; schans := 1; sbig := false |} ] 2 3
   = Ok [2;1;4;3;21;22; 6;5;8;7;23;24].
 Proof. vm_compute. reflexivity. Qed.
+
+(** Instances of the unbounded theorems on concrete data. *)
+Definition ex_be_stereo : src := {| sbytes := [1;2;3;4; 5;6;7;8; 9]; swidth := 2; schans := 2; sbig := true |}.
+Definition ex_le_mono : src := {| sbytes := [21;22; 23;24]; swidth := 2; schans := 1; sbig := false |}.
+Definition ex_le_mono_long : src := {| sbytes := [21;22; 23;24; 25;26; 27;28; 29;30]; swidth := 2; schans := 1; sbig := false |}.
+Example c12_example_uniform : uniform 2 [ex_be_stereo; ex_le_mono].
+Proof. repeat constructor; cbn; lia. Qed.
+(** equal frame counts (the stereo source has a trailing partial frame), any block size *)
+Example c12_example_equal_frames :
+  forall target, transcode target [ex_be_stereo; ex_le_mono] 2 3 = Ok [2;1;4;3;21;22; 6;5;8;7;23;24].
+Proof.
+  intros target.
+  apply (transcode_equal_frames target [ex_be_stereo; ex_le_mono] 2 2);
+    [discriminate|lia|exact c12_example_uniform|].
+  intros s [<-|[<-|[]]]; reflexivity.
+Qed.
+(** unequal lengths: 2 and 5 frames, block of one frame: output stops after the shortest *)
+Example c12_example_unequal :
+  out_count 1 [ex_be_stereo; ex_le_mono_long] = 2
+  /\ min_frames [ex_be_stereo; ex_le_mono_long] = 2 /\ max_frames [ex_be_stereo; ex_le_mono_long] = 5
+  /\ transcode 1 [ex_be_stereo; ex_le_mono_long] 2 3 = Ok [2;1;4;3;21;22; 6;5;8;7;23;24].
+Proof.
+  split; [reflexivity|]. split; [reflexivity|]. split; [reflexivity|].
+  etransitivity;
+    [apply (transcode_exact 1 [ex_be_stereo; ex_le_mono_long] 2); [discriminate|lia|repeat constructor; cbn; lia]
+    |reflexivity].
+Qed.
+(** unequal lengths, block of 4096 bytes: the last block is padded up to the longest source *)
+Example c12_example_unequal_padded :
+  out_count 4096 [ex_be_stereo; ex_le_mono_long] = 5
+  /\ transcode 4096 [ex_be_stereo; ex_le_mono_long] 2 3
+     = Ok [2;1;4;3;21;22; 6;5;8;7;23;24; 0;0;0;0;25;26; 0;0;0;0;27;28; 0;0;0;0;29;30].
+Proof.
+  split; [reflexivity|].
+  etransitivity;
+    [apply (transcode_exact 4096 [ex_be_stereo; ex_le_mono_long] 2); [discriminate|lia|repeat constructor; cbn; lia]
+    |reflexivity].
+Qed.
+Example c12_example_stereo_pair :
+  forall target, transcode target [mono16 [1;2;3;4;5;6]; mono16 [11;12;13;14;15;16]] 2 2
+                 = Ok [1;2;11;12; 3;4;13;14; 5;6;15;16].
+Proof. intros target. exact (transcode_stereo_pair target [1;2;3;4;5;6] [11;12;13;14;15;16] 3 eq_refl eq_refl). Qed.
+Example c12_example_passthrough :
+  forall target, transcode target [ {| sbytes := [1;2;3;4;5;6;7;8;9;10]; swidth := 2; schans := 2; sbig := false |} ] 2 2
+                 = Ok [1;2;3;4;5;6;7;8].
+Proof. intros target. apply (transcode_passthrough target 2); cbn; (reflexivity || lia). Qed.
